@@ -122,6 +122,15 @@ def displacement_field(kind, t, js, rng, amp):
         for j, z in t.J.items():
             w = (z - cen) / ext
             out[j] = complex(a * w.real + b * w.imag, c * w.real + d * w.imag)
+    elif kind == "dilate":
+        # pure growth about the centre (the extent changes from frame to frame)
+        for j, z in t.J.items():
+            out[j] = (z - cen) / ext
+    elif kind == "local":
+        # motion concentrated on one or two junctions, everything else at rest
+        movers = [js[int(rng.integers(0, len(js)))] for _ in range(int(rng.integers(1, 3)))] if len(js) else []
+        for j in t.J:
+            out[j] = complex(*rng.normal(size=2)) if j in movers else 0j
     else:  # flow: drift + vortex
         drift = complex(*rng.normal(size=2))
         om = rng.uniform(-2, 2)
